@@ -1171,3 +1171,136 @@ def r14(cx):
 RS.explanation += (' The value of an arithmetic expansion is the evaluator\'s: every error-free path of arith::expand (and of any other caller) '
                    'passes yash_arith::eval, the returned phrase derives from its result, no Value is manufactured in the glue (R13), and the '
                    'glue converts no text to a number itself (R14).')
+
+
+# ---------------------------------------------------------------------------------------
+# added after the audit C03h4 (docs/src/arithmetic.md listed `|` above `^`; the code follows C)
+@RS.rule('C03.R16', 'K-TABLE', 'the manual documents the precedence the evaluator implements: the numbered operator list of docs/src/arithmetic.md, read '
+         'as a table lexeme -> level, is order-isomorphic to Operator::precedence on the binary operators (two operators share a level in '
+         'the manual iff they share a precedence in the code; a lower-numbered level binds tighter)')
+def r16(cx):
+    import os
+    F = cx.F
+    fn = _fn(F, '<impl yash_arith::token::Operator>::precedence')
+    table, m = H.fn_match_table(F, fn, OP)
+    prec = {v: H.lit_value(body) for v, (i, body) in table.items()}
+    cx.require(all(isinstance(x, int) for x in prec.values()), 'precedence values are not integer literals')
+    path = os.path.join(getattr(F, 'repo', '/repo'), 'docs', 'src', 'arithmetic.md')
+    cx.require(os.path.exists(path), 'docs/src/arithmetic.md not found')
+    level, doc = None, {}
+    binary_level = {}
+    for line in open(path, encoding='utf-8'):
+        mm = re.match(r'^(\d+)\.\s+(\w+)', line)
+        if mm:
+            level, kind = int(mm.group(1)), mm.group(2)
+            binary_level[level] = kind in ('Binary', 'Ternary')
+            continue
+        mm = re.match(r'^\s+-\s+`([^`]+)`(?:\s+`([^`]+)`)?\s+–', line)
+        if mm and level is not None and binary_level.get(level):
+            doc[mm.group(1)] = level
+    by_lexeme = {lex: name for name, lex in LEXEMES.items()}
+    rows = [(lex, lvl, by_lexeme.get(lex)) for lex, lvl in sorted(doc.items(), key=lambda kv: kv[1])]
+    cx.require(len(rows) >= 25, 'fewer than 25 binary operators found in the numbered list of arithmetic.md (format changed?)')
+    known = [(lex, lvl, name) for lex, lvl, name in rows if name in prec]
+    cx.site('arithmetic.md: %d binary/ternary operators on %d levels; %d matched to Operator variants' % (len(rows), len({l for _, l, _ in rows}), len(known)))
+    cx.cellcount(len(known))
+    cx.sample({'doc_levels': {lex: lvl for lex, lvl, _ in rows}})
+    for lex, lvl, name in rows:
+        if name is None or name not in prec:
+            cx.violation(fn, 'documented-operator-unknown:%s' % lex, 'the manual lists the operator %r, which the tokenizer table does not know' % lex,
+                         loc='docs/src/arithmetic.md')
+    for i, (la, lva, na) in enumerate(known):
+        for lb, lvb, nb in known[i + 1:]:
+            doc_cmp = (lva > lvb) - (lva < lvb)            # lower level number = binds tighter
+            code_cmp = (prec[nb] > prec[na]) - (prec[nb] < prec[na])   # higher precedence value = binds tighter
+            if doc_cmp != code_cmp:
+                cx.violation(fn, 'manual-disagrees:%s:%s' % (la, lb), 'the manual puts %r on level %d and %r on level %d, the evaluator gives them '
+                             'precedence %d and %d: a reader of the manual predicts another value for an expression mixing the two '
+                             '(`$((1 | 1 ^ 1))`)' % (la, lva, lb, lvb, prec[na], prec[nb]), loc='docs/src/arithmetic.md')
+
+
+RS.explanation += ' The numbered operator list of the manual is order-isomorphic to Operator::precedence (R16).'
+
+
+# ---------------------------------------------------------------------------------------
+# added after the audit C03h4 (`x=1; $((x + (x=5)))` was 10: the bare variable on the left was read after the right operand's side effects)
+ASSIGNING = {'Assign', 'BitwiseOrAssign', 'BitwiseXorAssign', 'BitwiseAndAssign', 'ShiftLeftAssign', 'ShiftRightAssign',
+             'AddAssign', 'SubtractAssign', 'MultiplyAssign', 'DivideAssign', 'RemainderAssign'}
+BINOP = 'yash_arith::ast::BinaryOperator'
+
+
+@RS.rule('C03.R15', 'K-ORDER', 'the left operand of a binary operator is read before the right operand is evaluated (as for ||, && and ?:): for every '
+         'operator that does not assign to its left operand, no path of eval leads from the evaluation of the left operand to the '
+         'evaluation of the right operand without converting the left result to a value - `x + (x=5)` and `+x + (x=5)` agree')
+def r15(cx):
+    F = cx.F
+    body = F.inlined(F.main_body('yash_arith::eval::eval'))
+    cx.fn(body.fn)
+    du = Q.DefUse(body)
+    variants = [v['name'] for v in F.adts[BINOP]['variants']]
+    cx.require(ASSIGNING <= set(variants), 'BinaryOperator lost an assignment variant (update ASSIGNING)')
+    sink = Q.find_calls(body, ['yash_arith::eval::apply_binary'])
+    cx.require(sink, 'eval no longer calls apply_binary')
+    evals = Q.find_calls(body, ['yash_arith::eval::eval'])
+    conv = [(b, t) for b, t in body.calls() if Q.callee_is(t, ['yash_arith::eval::into_value', 'yash_arith::eval::expand_variable'])]
+    n = 0
+    for sb, st in sink:
+        if len(st['a']) < 2:
+            continue
+        # the two recursive evaluations whose results are the operands of this apply_binary
+        def producer(op):
+            src = Q.value_source(body, du, op)
+            hops = 0
+            while src is not None and not Q.callee_is(src, ['yash_arith::eval::eval']) and hops < 4:
+                if Q.callee_is(src, ['yash_arith::eval::into_value', 'yash_arith::eval::expand_variable']) or src.get('a'):
+                    nxt = [Q.value_source(body, du, a) for a in src['a'][:1]]
+                    src = nxt[0] if nxt else None
+                else:
+                    src = None
+                hops += 1
+            return src
+        l_eval, r_eval = producer(st['a'][0]), producer(st['a'][1])
+        if l_eval is None or r_eval is None or l_eval is r_eval:
+            # the operand may be an aggregate Term::Value{..} built from into_value(lhs): look at what feeds it
+            tl = None
+            for eb, et in evals:
+                tl = Q.forward_taint(body, {et['dest']['l']}, through_calls=Q.PROPAGATING_CALLS + Q.TRY_BRANCH + [re.compile(r'eval::(into_value|expand_variable)$')])
+                if (Q.operand_place(st['a'][0]) or {}).get('l') in tl and l_eval is None:
+                    l_eval = et
+                elif (Q.operand_place(st['a'][1]) or {}).get('l') in tl and (r_eval is None or r_eval is l_eval) and et is not l_eval:
+                    r_eval = et
+        cx.require(l_eval is not None and r_eval is not None and l_eval is not r_eval,
+                   'the two operand evaluations feeding apply_binary were not identified (shape not understood)')
+        lb = [b for b, t in evals if t is l_eval][0]
+        rb = [b for b, t in evals if t is r_eval][0]
+        l_taint = Q.forward_taint(body, {l_eval['dest']['l']}, through_calls=Q.PROPAGATING_CALLS + Q.TRY_BRANCH)
+        convs = {b for b, t in conv if any((Q.operand_place(a) or {}).get('l') in l_taint for a in t['a'])}
+        # switch edges on the operator, per variant
+        op_edges = []      # (u, v, set of variant labels)
+        for u in body.live_blocks():
+            ec = Q.edge_condition(F, body, du, u)
+            if ec and ec[0]['k'] == 'discr' and (ec[0].get('ty') or '').endswith('ast::BinaryOperator'):
+                for tgt, labs in ec[1].items():
+                    op_edges.append((u, tgt, {l[1] for l in labs if l[0] == 'variant'}))
+        bad = []
+        for v in variants:
+            if v in ASSIGNING:
+                continue
+            removed_edges = {(u, tgt) for u, tgt, labs in op_edges if labs and v not in labs}
+            start = l_eval.get('to')
+            p = body.shortest_path(start, {rb}, removed=convs, removed_edges=removed_edges) if start is not None else None
+            if p is not None:
+                bad.append(v)
+        n += 1
+        cx.site('eval: left operand evaluated at %s, right operand at %s; left result converted to a value first for %d of %d non-assigning operators'
+                % (body.loc(l_eval), body.loc(r_eval), len(variants) - len(ASSIGNING) - len(bad), len(variants) - len(ASSIGNING)))
+        cx.cellcount(len(variants) - len(ASSIGNING))
+        if bad:
+            cx.violation('yash_arith::eval::eval', 'left-operand-read-after-right:%s' % ('all' if len(bad) == len(variants) - len(ASSIGNING) else ','.join(bad)),
+                         'for %s the left operand is still an unread variable while the right operand is evaluated: `x=1; echo $((x + (x=5)))` '
+                         'gives 10 while `$((+x + (x=5)))` gives 6 (dash, bash: 6), `x=8; $((x/(x=2)))` gives 1' % (', '.join(bad[:4]) + (' ...' if len(bad) > 4 else '')),
+                         loc=body.loc(r_eval))
+    cx.floor(n, 1, 'binary arms of eval')
+
+
+RS.explanation += ' The left operand of a non-assigning binary operator is converted to a value before the right operand is evaluated (R15).'
